@@ -523,6 +523,36 @@ def rule_reset(ctx, py):
     ctx.floor(R, 1)
 
 
+def rule_release(ctx, py):
+    """C10.RELEASE -- who may release the native simulation: only an explicit finalize() call made by the user or by the
+    simulate driver.  The library holds one simulation for the whole process (C10.ISOLATION), so a release triggered from
+    inside an engine object -- its destructor, its constructor, its set-up or loop methods -- frees whichever simulation is
+    live, possibly the one another object is running."""
+    R = "C10.RELEASE"
+    n = 0
+    for mn in ("librdengine", "kineticsrdengine", "rdengine", "engine_collection"):
+        m = py.mods.get(mn)
+        if m is None:
+            continue
+        for f in m.funcs.values():
+            if getattr(f, "_cls", None) is None:
+                continue
+            for c in pyfe.calls_in(f):
+                nm = pyfe.call_name(c)
+                native = nm.endswith("engineexport_finalize")
+                meth = isinstance(c.func, ast.Attribute) and c.func.attr == "finalize"
+                if not (native or meth):
+                    continue
+                n += 1
+                ok = native and f.name == "finalize"
+                ctx.check(ok, R, c, f._qual, "%s in %s" % (pyfe.src(c)[:50], f.name), "the native release is reached only through "
+                          "the finalize() method itself", "`%s` releases the simulation from inside `%s`: the library holds one "
+                          "simulation per process, so this frees whichever one is live (another engine object's run) at a moment "
+                          "the user did not choose" % (pyfe.src(c)[:40], f.name))
+    ctx.need(n >= 1, R, "no call of engineexport_finalize found in the engine modules")
+    ctx.floor(R, 1)
+
+
 def rule_progress(ctx, tu, eff):
     """every path through an Iterate that does not return on `complete` either flags completion or advances the
     clock by `t += dt` (a step that does neither can be repeated forever: the driver loops never return)"""
@@ -628,12 +658,21 @@ def run(ctx):
     rule_loops(ctx, tu, eff)
     rule_isolation(ctx, tu, eff)
     rule_reset(ctx, ctx.py)
+    rule_release(ctx, ctx.py)
     rule_progress(ctx, tu, eff)
     rule_type_ptr(ctx, tu)
     ctx.analysed["engine"] = tu.meta
     # a set-up leaves the caller's script as it found it: the next set-up made with that script starts from the same input
     from . import c08
     c08.rule_py_pure(ctx, ctx.py, "C10.PY-PURE")
+    # shared clause: a set-up always replaces what an earlier one left (fresh object, globals assigned), and a refusal of the
+    # native initialiser reaches the caller as an exception -- the status reported afterwards is the one of this set-up
+    from ..core import borrow
+    borrow(ctx, "C10", c08.rule_globals, tu, ctx.py)
+    # shared clause: completion is flagged only past t_max or in a dead state (C09.COMPLETE) -- a fixed-step run takes its
+    # ceil(t_max/dt) steps
+    from . import c09
+    borrow(ctx, "C10", c09.rule_complete, tu)
     from .. import lints
     lints.run(ctx, "C10", ctx.py, ["librdengine"])
     ctx.assume("completion after ceil(t_max/dt) steps and absence of hangs in general are value-level and not "
